@@ -239,7 +239,7 @@ ApiKinds == {"SendVoucher","SendVoucherResult","UpdateValidation","Close","Close
 CallbackKinds == {"OnChannelOpened","OnTransferInitiated","OnDataQueued","OnDataSent","OnDataReceived","OnChannelCompleted",
                   "OnRequestCancelled","OnRequestDisconnected","OnSendDataError","OnReceiveDataError"}
 
-Handle(s, self, has, id, r, types, cache) ==
+Handle0(s, self, has, id, r, types, cache) ==
   CASE s.kind = "RecvRequest" -> RecvRequest(s, self, has, id, r, types, cache)
     [] s.kind = "OnRequestReceived" -> OnRequest(s, self, has, id, r, types, cache)
     [] s.kind = "RecvResponse" -> RecvResponse(s, self, has, id, r, cache)
@@ -248,4 +248,12 @@ Handle(s, self, has, id, r, types, cache) ==
     [] s.kind \in ApiKinds -> Api(s, self, has, id, r, types, cache)
     [] s.kind \in CallbackKinds -> Callback(s, self, has, id, r, cache)
     [] OTHER -> [Out0(cache) EXCEPT !.ret = "unmodelled"]
+
+(* channels.SetDataLimit also updates the progress cache's limit (if the entry exists) *)
+WithLimitCache(o) ==
+  LET idxs == {i \in 1..Len(o.evs) : o.evs[i][1] = "SetDataLimit"} IN
+  IF idxs = {} \/ ~o.cache.pset THEN o
+  ELSE [o EXCEPT !.cache.plim = o.evs[CHOOSE i \in idxs : \A j \in idxs : j <= i][2]]
+
+Handle(s, self, has, id, r, types, cache) == WithLimitCache(Handle0(s, self, has, id, r, types, cache))
 =============================================================================
